@@ -211,7 +211,12 @@ func (q *QueryRangeController) Tail(w http.ResponseWriter, r *http.Request) {
 				logger.Error(err)
 				return
 			}
-		case str := <-watcher.GetRes():
+		case str, ok := <-watcher.GetRes():
+			if !ok {
+				// the service side has ended (query refused, database error) and closed the channel:
+				// end the stream instead of sending empty messages for ever
+				return
+			}
 			err = con.WriteMessage(ws.TextMessage, []byte(str.Str))
 			if err != nil {
 				logger.Error(err)
